@@ -3,6 +3,8 @@
 EXTENDS ConvertAbs, Json
 CONSTANT Focus       \* "C17": writable directory store and memory store over the directory, all clauses;
                      \* "C14": read-only directory store and memory store: the directory is never touched, its content is still served
+                     \* "C06": store kind dirgc (nothing tagged but the fallback tags; untagged collection, no grace period,
+                     \*        empty repositories removed): the first access is a collection, then a second one
 VARIABLES l, fails, stats, first
 Trace == ndJsonDeserialize("trace.ndjson")
 S(q) == {q[i] : i \in DOMAIN q}
@@ -32,9 +34,13 @@ Clauses(e) ==
     <<"marked", (e.store = "dir" /\ ~e.hung) => e.conv>>,
     <<"untouched", e.store \in {"memdir", "dirro"} => ~e.changed>>,
     \* repeating the conversion (re-open) gives the same result
-    <<"repeatable", e.phase = "reopen" => e.obs = first>> }
+    <<"repeatable", e.phase = "reopen" => e.obs = first>>,
+    \* C06: a second collection changes nothing below the root; a repository the collection emptied is removed
+    <<"gc.idem", e.phase = "gc" => e.idem>>,
+    <<"gc.emptyrepo", (e.phase = "gc" /\ o.blobs = <<>> /\ o.mans = <<>> /\ o.tags = <<>> /\ o.taglist = <<>>) => ~e.exists>> }
 Enforced(e) ==
-  IF Focus = "C17" THEN (IF e.store \in {"dir", "memdir"} THEN {"terminates", "refs", "refs512", "kept", "marked", "untouched", "repeatable"} ELSE {})
+  IF Focus = "C06" THEN (IF e.store = "dirgc" THEN {"terminates", "gc.idem", "gc.emptyrepo"} ELSE {})
+  ELSE IF Focus = "C17" THEN (IF e.store \in {"dir", "memdir"} THEN {"terminates", "refs", "refs512", "kept", "marked", "untouched", "repeatable"} ELSE {})
   ELSE (IF e.store \in {"dirro", "memdir"} THEN {"terminates", "kept", "untouched"} ELSE {})
 Failed(e) == {c[1] : c \in {x \in Clauses(e) : ~x[2] /\ x[1] \in Enforced(e)}}
 TraceInit == l = 1 /\ fails = <<>> /\ stats = [events |-> 0, checked |-> 0, nonempty |-> 0] /\ first = <<>>
